@@ -156,6 +156,9 @@ class HeapMixin:
             kv = getattr(sch, 'key_view', None) if sch else None
             if kv is not None:
                 return self.coerce(self.read_field(v, kv), kind)
+        if kind == STR and v.kind == BOOL and self.options.get('false_as_empty_str'):
+            # a "str | bool" slot: False is the empty (falsy) text, True a truthy sentinel
+            return z3.If(v.t, z3.StringVal('<True>'), z3.StringVal(''))
         if kind == FLOAT and v.kind == INT:
             return z3.ToReal(v.t)
         if kind == INT and v.kind == BOOL:
